@@ -45,10 +45,22 @@ type Rec struct {
 	Err      string
 }
 
+// canon strips the random digits of temporary file names.
+func canon(p string) string {
+	if i := strings.Index(p, ".tmp"); i >= 0 {
+		j := i + 4
+		for j < len(p) && p[j] >= '0' && p[j] <= '9' {
+			j++
+		}
+		return p[:i+4] + p[j:]
+	}
+	return p
+}
+
 func (r Rec) String() string {
-	s := r.Op + " " + r.Path
+	s := r.Op + " " + canon(r.Path)
 	if r.Path2 != "" {
-		s += " -> " + r.Path2
+		s += " -> " + canon(r.Path2)
 	}
 	if r.Op == "write" || r.Op == "writeat" {
 		s += fmt.Sprintf(" [%dB]", r.N)
@@ -60,7 +72,11 @@ func (r Rec) String() string {
 		s += fmt.Sprintf(" %o", r.Perm)
 	}
 	if r.Err != "" {
-		s += " ERR(" + r.Err + ")"
+		e := r.Err
+		if i := strings.LastIndex(e, ": "); i >= 0 {
+			e = e[i+2:] // drop the path prefix of PathError/LinkError texts (scratch directories differ per run)
+		}
+		s += " ERR(" + e + ")"
 	}
 	return s
 }
@@ -318,27 +334,21 @@ func Materialize(dir string, v Variant) error {
 // write and before the rename, and the live path is never opened for writing,
 // truncated or removed.
 func (r *Recorder) CheckAtomicProtocol(live string) error {
+	if err := r.CheckNotInPlace(live); err != nil {
+		return err
+	}
+	// among the calls that succeeded: the last write of the new contents, then an fsync of that file, then the rename
 	var tmp string
 	lastWrite, syncAt, renameAt := -1, -1, -1
 	for i, c := range r.Calls {
-		if !c.Inside {
+		if !c.Inside || c.Err != "" {
 			continue
 		}
 		switch c.Op {
-		case "open":
-			if c.Path == live && c.Mutating {
-				return fmt.Errorf("live file opened for writing in place (%s)", c)
-			}
-		case "truncate", "remove":
-			if c.Path == live {
-				return fmt.Errorf("live file %sd in place", c.Op)
-			}
 		case "write", "writeat":
-			if c.Path == live {
-				return fmt.Errorf("live file written in place (%s)", c)
-			}
 			lastWrite = i
 			tmp = c.Path
+			syncAt = -1
 		case "sync":
 			if c.Path == tmp {
 				syncAt = i
@@ -363,6 +373,30 @@ func (r *Recorder) CheckAtomicProtocol(live string) error {
 	}
 	if strings.Contains(tmp, string(filepath.Separator)) {
 		return fmt.Errorf("temporary file %q not in the same directory", tmp)
+	}
+	return nil
+}
+
+// CheckNotInPlace: the live path is never opened for writing, written, truncated or removed (attempts count).
+func (r *Recorder) CheckNotInPlace(live string) error {
+	for _, c := range r.Calls {
+		if !c.Inside {
+			continue
+		}
+		switch c.Op {
+		case "open":
+			if c.Path == live && c.Mutating {
+				return fmt.Errorf("live file opened for writing in place (%s)", c)
+			}
+		case "truncate", "remove":
+			if c.Path == live {
+				return fmt.Errorf("live file %sd in place", c.Op)
+			}
+		case "write", "writeat":
+			if c.Path == live {
+				return fmt.Errorf("live file written in place (%s)", c)
+			}
+		}
 	}
 	return nil
 }
